@@ -18,7 +18,7 @@ def toks_of(r):
 
 def map_pos(pos, ra, rb):
     """Map a position reported under layout A to where the same token sits under layout B."""
-    ta, tb = toks_of(ra), toks_of(rb)
+    ta, tb = [t for t in toks_of(ra) if not t.optional], [t for t in toks_of(rb) if not t.optional]
     l, c = pos
     best = None
     for i, t in enumerate(ta):
